@@ -291,19 +291,40 @@ func solve(ccs constraint.ConstraintSystem, q *big.Int, sec []*big.Int) (err err
 		})
 		ch <- r
 	}()
-	select {
-	case r := <-ch:
-		return r.err, r.pan
-	case <-time.After(hangAfter):
-		// a solve of these circuits takes milliseconds; the goroutine cannot be killed and keeps a core busy
-		hung.Add(1)
-		return nil, hangMark
+	t0 := time.Now()
+	tick := time.NewTicker(500 * time.Millisecond)
+	defer tick.Stop()
+	for {
+		select {
+		case r := <-ch:
+			el := int64(time.Since(t0))
+			for {
+				cur := slowestSolve.Load()
+				if el <= cur || slowestSolve.CompareAndSwap(cur, el) {
+					break
+				}
+			}
+			return r.err, r.pan
+		case <-tick.C:
+			// a solve of these circuits takes milliseconds; the limit follows the machine load
+			// (25 x the slowest solve that did return); the goroutine cannot be killed and keeps a core busy
+			lim := hangAfter
+			if x := 25 * time.Duration(slowestSolve.Load()); x > lim {
+				lim = x
+			}
+			if time.Since(t0) > lim {
+				hung.Add(1)
+				return nil, hangMark
+			}
+		}
 	}
 }
 
+var slowestSolve atomic.Int64
+
 const (
 	hangAfter = 2 * time.Minute
-	hangMark  = "HANG: the solver did not return within 2 minutes (a solve of this circuit takes milliseconds)"
+	hangMark  = "HANG: the solver did not return within max(2 minutes, 25 x the slowest solve that returned); a solve of this circuit takes milliseconds"
 	maxHung   = 2
 )
 
